@@ -2,6 +2,7 @@
 from pyvc.contracts import Contract, LoopSpec
 
 M = "superrec2.utils.disjoint_set"
+REQUIRES = ["subsequences"]
 
 
 def setup(E):
